@@ -47,7 +47,7 @@ type Header struct {
 }
 
 type Case struct {
-	Kind     string   `json:"kind"`     // route, noroute, nomethod, options
+	Kind     string   `json:"kind"`     // route, route-ts (route served by ignoring a trailing slash), noroute, nomethod, options
 	Where    string   `json:"where"`    // handler, inner-mw-before, inner-mw-after, updates-body, view-body
 	Cut      int      `json:"cut"`      // for updates-body: number of writes done before the panic
 	Value    string   `json:"value"`    // which panic value
@@ -225,12 +225,15 @@ func checkCase(c *Case) (err error) {
 		return nil
 	}
 	f.MustHandle("GET", "/boom/{id}/*{rest}", routeHandler, fox.WithMiddleware(inner))
+	f.MustHandle("GET", "/bts/{id}/{rest}", routeHandler, fox.WithMiddleware(inner), fox.WithIgnoreTrailingSlash(true))
 	f.MustHandle("GET", "/ok/{id}", okHandler)
 	f.MustHandle("POST", "/only-post", okHandler)
 	before := snapshot(f)
 
 	method, path := "GET", "/boom/id-77/some/rest-88"
 	switch c.Kind {
+	case "route-ts":
+		path = "/bts/id-77/rest-88/"
 	case "noroute":
 		path = "/nothing/here"
 	case "nomethod":
@@ -306,8 +309,12 @@ func checkCase(c *Case) (err error) {
 		if logs.records < 1 {
 			return fmt.Errorf("%sno diagnostic record was logged for the recovered panic", desc)
 		}
-		if c.Kind == "route" {
-			for _, s := range []string{"/boom/{id}/*{rest}", "id-77", "some/rest-88"} {
+		if c.Kind == "route" || c.Kind == "route-ts" {
+			pat := "/boom/{id}/*{rest}"
+			if c.Kind == "route-ts" {
+				pat = "/bts/{id}/{rest}"
+			}
+			for _, s := range []string{pat, "id-77", "rest-88"} {
 				if !strings.Contains(text, s) {
 					return fmt.Errorf("%sthe diagnostic record does not name %q (route and parameters): %s", desc, s, text)
 				}
@@ -375,12 +382,12 @@ func spell(t *rapid.T, name string) string {
 
 func genCase(t *rapid.T) *Case {
 	c := &Case{
-		Kind:     gen.Pick(t, []string{"route", "route", "noroute", "nomethod", "options"}, "kind"),
+		Kind:     gen.Pick(t, []string{"route", "route", "route-ts", "noroute", "nomethod", "options"}, "kind"),
 		Value:    gen.Pick(t, values, "value"),
 		Progress: gen.Pick(t, []string{"none", "none", "informational", "header", "body", "flush"}, "progress"),
 		Where:    "handler",
 	}
-	if c.Kind == "route" {
+	if c.Kind == "route" || c.Kind == "route-ts" {
 		c.Where = gen.Pick(t, []string{"handler", "handler", "inner-mw-before", "inner-mw-after", "updates-body", "view-body"}, "where")
 	} else if gen.Chance(t, 1, 4, "txn") {
 		c.Where = gen.Pick(t, []string{"updates-body", "view-body"}, "where")
@@ -434,7 +441,7 @@ func TestExhaustive(t *testing.T) {
 	hs := []Header{{Name: "Authorization", Value: "tokAAA111q", Secret: true}, {Name: "Cookie", Value: "tokBBB222q", Secret: true}, {Name: "Accept", Value: "tokCCC333q"}}
 	for _, v := range values {
 		for _, p := range []string{"none", "informational", "header", "body", "flush"} {
-			for _, kw := range [][2]string{{"route", "handler"}, {"route", "inner-mw-before"}, {"route", "inner-mw-after"}, {"route", "updates-body"}, {"route", "view-body"}, {"noroute", "handler"}, {"nomethod", "handler"}, {"options", "handler"}, {"noroute", "updates-body"}} {
+			for _, kw := range [][2]string{{"route", "handler"}, {"route", "inner-mw-before"}, {"route", "inner-mw-after"}, {"route", "updates-body"}, {"route", "view-body"}, {"route-ts", "handler"}, {"route-ts", "inner-mw-before"}, {"route-ts", "inner-mw-after"}, {"noroute", "handler"}, {"nomethod", "handler"}, {"options", "handler"}, {"noroute", "updates-body"}} {
 				for cut := 0; cut <= 3; cut++ {
 					if kw[1] != "updates-body" && cut > 0 {
 						continue
